@@ -440,5 +440,178 @@ VF_PK_EXPORT_CONTRACT(ecdsa_pub_key_export_le, VF_WSPAN_C, VF_SZ_C, VF_G_pk_expo
 ;
 #endif
 
+/* ================================================================== C09: key generation ==== */
+/*
+ * ecdsa_key_gen(curve, d, Q): d := (d mod (n-1)) + 1 if d >= n (bn_mod_reduce, in place), Q := d G,
+ * then Q is validated (ec_point_check_as_pub_key is called directly: also with
+ * EC_DISABLE_PUB_KEY_CHK).  success ==> no internal computation failed; d well-formed and < n; one
+ * base-point multiplication with scalar d over the caller's curve into Q; Q validated once, status 0.
+ */
+#ifdef VF_ENFORCE_ecdsa_key_gen
+#define VF_G_key_gen	VF_EC_ENFORCED_GHOST
+#else
+#define VF_G_key_gen									\
+	__CPROVER_assigns(VF_EC_STATUS_ASSIGNS, vf_g.core)				\
+	__CPROVER_ensures(VF_EC_STATUS_ENSURES)						\
+	__CPROVER_ensures(vf_st_core == __CPROVER_return_value && vf_n_core == __CPROVER_old(vf_n_core) + 1u &&	\
+	    vf_core_a0 == VF_ID(curve) && vf_core_a1 == VF_ID(d) && vf_core_a2 == VF_ID(Q) &&	\
+	    vf_core_a3 == 0 && vf_core_a4 == 0 && vf_core_flag == 2)
+#endif
+static inline int
+ecdsa_key_gen(ec_curve_p curve, bn_p d, ec_point_p Q)
+__CPROVER_requires(VF_CURVE_IN(curve) && VF_ECBN_RW(d))
+__CPROVER_requires(VF_EC_POINT_OK(Q) && VF_EC_POINT_WF(*Q))
+__CPROVER_assigns(VF_BN_FRAME(d), VF_EC_POINT_FRAME(Q))
+VF_G_key_gen
+__CPROVER_ensures(__CPROVER_return_value == 0 ==> (vf_bn_wf(*d) && vf_bn_val(*d) < VF_N(curve) && VF_EC_POINT_WF(*Q)))
+#ifdef VF_ENFORCE_ecdsa_key_gen
+__CPROVER_ensures(__CPROVER_return_value == 0 ==> (vf_n_reduce == 1 && vf_reduce_bn[0] == VF_ID(d) && vf_reduce_m[0] == VF_NID(curve)))
+__CPROVER_ensures(__CPROVER_return_value == 0 ==> (vf_n_mult_bp == 1 && vf_st_mult_bp == 0 && vf_n_twin == 0 && vf_n_unkpt == 0 &&
+    vf_mult_bp_d == VF_ID(d) && vf_mult_bp_curve == VF_ID(curve) && vf_mult_bp_res == VF_ID(Q)))
+__CPROVER_ensures(__CPROVER_return_value == 0 ==> (vf_n_chk_pub == 1 && vf_st_chk_pub == 0 &&
+    vf_chk_pub_point == VF_ID(Q) && vf_chk_pub_curve == VF_ID(curve)))
+#endif
+;
+
+/*
+ * ecdsa_key_gen_be / _le: NULL arguments (pub_key_y included, as coded), rnd_size == 0 or
+ * rnd_size < bytes ==> EINVAL.  success ==> exactly `bytes` bytes of rnd were read; the private key is
+ * written as exactly `bytes` bytes, *priv_key_size == bytes; the public key produced by ecdsa_key_gen
+ * from that number goes through ecdsa_pub_key_export_* with the caller's buffers.
+ * Spans: pub_key_x has the size of the selected form (pub_key_y is never NULL here: compressed
+ * 1 + bytes, else separate coordinates of `bytes` each).
+ */
+#define VF_KEY_GEN_BYTES_CONTRACT(fn)							\
+static inline int fn(ec_curve_p curve, uint8_t *rnd, size_t rnd_size, int pub_key_compress,	\
+    uint8_t *priv_key, size_t *priv_key_size, uint8_t *pub_key_x, uint8_t *pub_key_y, size_t *pub_key_size)	\
+__CPROVER_requires(VF_CURVE_IN(curve) && VF_SPAN_E(rnd, rnd_size))			\
+__CPROVER_requires(VF_SPAN_E(priv_key, VF_EC_BYTES(curve)) && VF_SZ_E(priv_key_size))	\
+__CPROVER_requires(VF_SPAN_E(pub_key_x, (pub_key_compress != 0) ? 1 + VF_EC_BYTES(curve) : VF_EC_BYTES(curve)))	\
+__CPROVER_requires(VF_SPAN_E(pub_key_y, VF_EC_BYTES(curve)) && VF_SZ_E(pub_key_size))	\
+__CPROVER_assigns(priv_key != NULL: __CPROVER_object_upto(priv_key, VF_EC_BYTES(curve)))	\
+__CPROVER_assigns(priv_key_size != NULL: *priv_key_size)				\
+__CPROVER_assigns(pub_key_x != NULL && pub_key_compress != 0: __CPROVER_object_upto(pub_key_x, 1 + VF_EC_BYTES(curve)))	\
+__CPROVER_assigns(pub_key_x != NULL && pub_key_compress == 0: __CPROVER_object_upto(pub_key_x, VF_EC_BYTES(curve)))	\
+__CPROVER_assigns(pub_key_y != NULL: __CPROVER_object_upto(pub_key_y, VF_EC_BYTES(curve)))	\
+__CPROVER_assigns(pub_key_size != NULL: *pub_key_size)					\
+VF_EC_ENFORCED_GHOST									\
+__CPROVER_ensures((rnd == NULL || rnd_size == 0 || priv_key == NULL || pub_key_x == NULL || pub_key_y == NULL ||	\
+    pub_key_size == NULL || rnd_size < VF_EC_BYTES(curve)) ==> __CPROVER_return_value == EINVAL)	\
+__CPROVER_ensures(__CPROVER_return_value == 0 ==> (vf_n_imp == 1 && VF_IMPORTED(0, rnd, VF_EC_BYTES(curve)) &&	\
+    vf_n_core == 1 && vf_st_core == 0 && vf_core_flag == 2 && vf_core_a0 == VF_ID(curve) && vf_core_a1 == vf_imp_bn[0]))	\
+__CPROVER_ensures(__CPROVER_return_value == 0 ==> (vf_n_exp == 1 && VF_EXPORTED(0, priv_key, VF_EC_BYTES(curve)) &&	\
+    vf_exp_bn[0] == vf_core_a1 && (priv_key_size == NULL || *priv_key_size == VF_EC_BYTES(curve))))	\
+__CPROVER_ensures(__CPROVER_return_value == 0 ==> (vf_n_pk_export == 1 && vf_st_pk_export == 0 &&	\
+    vf_g.pk_export.a0 == VF_ID(curve) && vf_g.pk_export.a1 == VF_ID(pub_key_x) && vf_g.pk_export.a2 == VF_ID(pub_key_y) &&	\
+    vf_g.pk_export.a3 == VF_ID(pub_key_size) && vf_g.pk_export.a4 == vf_core_a2 && vf_g.pk_export.flag == pub_key_compress))	\
+;
+VF_KEY_GEN_BYTES_CONTRACT(ecdsa_key_gen_be)
+VF_KEY_GEN_BYTES_CONTRACT(ecdsa_key_gen_le)
+
+/* ================================================================== C09: Diffie-Hellman ==== */
+/*
+ * ecdsa_dh(curve, use_cofactor, Q, d, shared): shared may be d (documented).
+ *   d >= n ==> EINVAL;  success ==> no internal computation failed; the scalar is a copy of d,
+ *   multiplied by the cofactor h modulo n IFF use_cofactor != 0 (exactly one bn_mod_mult_digit
+ *   by curve->h then, none otherwise); exactly one unknown-point multiplication, of a copy of Q, by
+ *   that scalar, over the caller's curve; its result is finite and shared is a copy of its x.
+ */
+#ifdef VF_ENFORCE_ecdsa_dh
+#define VF_G_dh	VF_EC_ENFORCED_GHOST
+#else
+#define VF_G_dh										\
+	__CPROVER_assigns(VF_EC_STATUS_ASSIGNS, vf_g.core)				\
+	__CPROVER_ensures(VF_EC_STATUS_ENSURES)						\
+	__CPROVER_ensures(vf_st_core == __CPROVER_return_value && vf_n_core == __CPROVER_old(vf_n_core) + 1u &&	\
+	    vf_core_a0 == VF_ID(curve) && vf_core_a1 == VF_ID(pub_key) && vf_core_a2 == VF_ID(priv_key) &&	\
+	    vf_core_a3 == VF_ID(shared_key) && vf_core_a4 == (unsigned long)(use_cofactor != 0) && vf_core_flag == 3)
+#endif
+static inline int
+ecdsa_dh(ec_curve_p curve, int use_cofactor, ec_point_p pub_key, bn_p priv_key, bn_p shared_key)
+__CPROVER_requires(VF_CURVE_IN(curve))
+__CPROVER_requires(__CPROVER_r_ok(pub_key, sizeof(ec_point_t)) && VF_EC_POINT_WF(*pub_key))
+__CPROVER_requires(VF_ECBN_R(priv_key) && VF_ECBN_OUT(shared_key))
+__CPROVER_requires(shared_key == priv_key || !__CPROVER_same_object(shared_key, priv_key))
+__CPROVER_assigns(VF_BN_FRAME(shared_key))
+VF_G_dh
+__CPROVER_ensures(vf_bn_val(__CPROVER_old(*priv_key)) >= VF_N(curve) ==> __CPROVER_return_value != 0)
+__CPROVER_ensures(__CPROVER_return_value == 0 ==> vf_bn_wf(*shared_key))
+#ifdef VF_ENFORCE_ecdsa_dh
+__CPROVER_ensures(vf_bn_val(__CPROVER_old(*priv_key)) >= VF_N(curve) ==> __CPROVER_return_value == EINVAL)
+__CPROVER_ensures(__CPROVER_return_value == 0 ==> ((use_cofactor != 0) ?
+    (vf_n_mult_digit == 1 && vf_mult_digit_d == curve->h && vf_mult_digit_bn == VF_ID(shared_key) && vf_mult_digit_m == VF_NID(curve)) :
+    (vf_n_mult_digit == 0)))
+__CPROVER_ensures(__CPROVER_return_value == 0 ==> (vf_n_unkpt == 1 && vf_st_unkpt == 0 && vf_unkpt_inf == 0 &&
+    vf_n_mult_bp == 0 && vf_n_twin == 0 && vf_unkpt_d == VF_ID(shared_key) && vf_unkpt_curve == VF_ID(curve)))
+__CPROVER_ensures(__CPROVER_return_value == 0 ==> (
+    VF_ASSIGNED_FROM(vf_unkpt_point + offsetof(ec_point_t, x), VF_ID(&pub_key->x)) &&
+    VF_ASSIGNED_FROM(vf_unkpt_point + offsetof(ec_point_t, y), VF_ID(&pub_key->y)) &&
+    VF_ASSIGNED_FROM(VF_ID(shared_key), VF_ID(priv_key)) &&
+    VF_ASSIGNED_FROM(VF_ID(shared_key), vf_unkpt_point + offsetof(ec_point_t, x))))
+#endif
+;
+
+#define VF_DH_BYTES_CONTRACT(fn)							\
+static inline int fn(ec_curve_p curve, int use_cofactor,				\
+    uint8_t *pub_key_x, uint8_t *pub_key_y, size_t pub_key_size,			\
+    uint8_t *priv_key, size_t priv_key_size, uint8_t *shared_key, size_t *shared_size)	\
+__CPROVER_requires(VF_CURVE_IN(curve))							\
+__CPROVER_requires(VF_SPAN_E(pub_key_x, pub_key_size) && VF_SPAN_E(pub_key_y, VF_EC_BYTES(curve)))	\
+__CPROVER_requires(VF_SPAN_E(priv_key, priv_key_size))					\
+__CPROVER_requires(VF_SPAN_E(shared_key, VF_EC_BYTES(curve)) && VF_SZ_E(shared_size))	\
+__CPROVER_assigns(shared_key != NULL: __CPROVER_object_upto(shared_key, VF_EC_BYTES(curve)))	\
+__CPROVER_assigns(shared_size != NULL: *shared_size)					\
+VF_EC_ENFORCED_GHOST									\
+__CPROVER_ensures((pub_key_x == NULL || pub_key_size == 0 || priv_key == NULL || priv_key_size == 0 ||	\
+    shared_key == NULL || priv_key_size > VF_EC_BYTES(curve)) ==> __CPROVER_return_value == EINVAL)	\
+__CPROVER_ensures(__CPROVER_return_value == 0 ==> (vf_n_pk_import == 1 && vf_st_pk_import == 0 &&	\
+    vf_g.pk_import.a0 == VF_ID(curve) && vf_g.pk_import.a1 == VF_ID(pub_key_x) &&		\
+    vf_g.pk_import.a2 == VF_ID(pub_key_y) && vf_g.pk_import.a3 == pub_key_size))		\
+__CPROVER_ensures(__CPROVER_return_value == 0 ==> (vf_n_imp == 1 && VF_IMPORTED(0, priv_key, priv_key_size) &&	\
+    vf_n_core == 1 && vf_st_core == 0 && vf_core_flag == 3 && vf_core_a0 == VF_ID(curve) &&	\
+    vf_core_a1 == vf_g.pk_import.a4 && vf_core_a2 == vf_imp_bn[0] &&			\
+    vf_core_a4 == (unsigned long)(use_cofactor != 0)))						\
+__CPROVER_ensures(__CPROVER_return_value == 0 ==> (vf_n_exp == 1 && VF_EXPORTED(0, shared_key, VF_EC_BYTES(curve)) &&	\
+    vf_exp_bn[0] == vf_core_a3 && (shared_size == NULL || *shared_size == VF_EC_BYTES(curve))))	\
+;
+VF_DH_BYTES_CONTRACT(ecdsa_dh_be)
+VF_DH_BYTES_CONTRACT(ecdsa_dh_le)
+
+/* ================================================================== C09: public key from private key ==== */
+/*
+ * ecdsa_recover_pub_key_from_priv_key_be / _le: NULL / zero-size arguments, priv_key_size > bytes
+ * ==> EINVAL.  success ==> the key was read as exactly priv_key_size bytes, compared with n and
+ * found smaller (a key >= n returns EINVAL); one base-point multiplication by it, status honoured;
+ * the result validated (ec_point_check_as_pub_key, status 0) and exported with the caller's buffers.
+ * Span of pub_key_x: the size of the selected form (compressed 1 + bytes; separate `bytes`;
+ * packed 1 + 2 bytes).
+ */
+#define VF_RECOVER_BYTES_CONTRACT(fn)							\
+static inline int fn(ec_curve_p curve, uint8_t *priv_key, size_t priv_key_size,		\
+    int pub_key_compress, uint8_t *pub_key_x, uint8_t *pub_key_y, size_t *pub_key_size)	\
+__CPROVER_requires(VF_CURVE_IN(curve) && VF_SPAN_E(priv_key, priv_key_size))		\
+__CPROVER_requires(VF_SPAN_E(pub_key_y, VF_EC_BYTES(curve)) && VF_SZ_E(pub_key_size))	\
+__CPROVER_requires(VF_SPAN_E(pub_key_x, (pub_key_compress != 0) ? 1 + VF_EC_BYTES(curve) :	\
+    ((pub_key_y != NULL) ? VF_EC_BYTES(curve) : 1 + 2 * VF_EC_BYTES(curve))))		\
+__CPROVER_assigns(pub_key_x != NULL && pub_key_compress != 0: __CPROVER_object_upto(pub_key_x, 1 + VF_EC_BYTES(curve)))	\
+__CPROVER_assigns(pub_key_x != NULL && pub_key_compress == 0 && pub_key_y != NULL: __CPROVER_object_upto(pub_key_x, VF_EC_BYTES(curve)))	\
+__CPROVER_assigns(pub_key_x != NULL && pub_key_compress == 0 && pub_key_y == NULL: __CPROVER_object_upto(pub_key_x, 1 + 2 * VF_EC_BYTES(curve)))	\
+__CPROVER_assigns(pub_key_y != NULL: __CPROVER_object_upto(pub_key_y, VF_EC_BYTES(curve)))	\
+__CPROVER_assigns(pub_key_size != NULL: *pub_key_size)					\
+VF_EC_ENFORCED_GHOST									\
+__CPROVER_ensures((priv_key == NULL || priv_key_size == 0 || pub_key_x == NULL ||	\
+    priv_key_size > VF_EC_BYTES(curve)) ==> __CPROVER_return_value == EINVAL)		\
+__CPROVER_ensures(__CPROVER_return_value == 0 ==> (vf_n_imp == 1 && VF_IMPORTED(0, priv_key, priv_key_size) &&	\
+    vf_n_cmp >= 1 && vf_cmp_a == vf_imp_bn[0] && vf_cmp_b == VF_NID(curve) && vf_cmp_r < 0))	\
+__CPROVER_ensures(__CPROVER_return_value == 0 ==> (vf_n_mult_bp == 1 && vf_st_mult_bp == 0 &&	\
+    vf_mult_bp_d == vf_imp_bn[0] && vf_mult_bp_curve == VF_ID(curve) &&			\
+    vf_n_chk_pub == 1 && vf_st_chk_pub == 0 && vf_chk_pub_point == vf_mult_bp_res && vf_chk_pub_curve == VF_ID(curve)))	\
+__CPROVER_ensures(__CPROVER_return_value == 0 ==> (vf_n_pk_export == 1 && vf_st_pk_export == 0 &&	\
+    vf_g.pk_export.a0 == VF_ID(curve) && vf_g.pk_export.a1 == VF_ID(pub_key_x) && vf_g.pk_export.a2 == VF_ID(pub_key_y) &&	\
+    vf_g.pk_export.a3 == VF_ID(pub_key_size) && vf_g.pk_export.a4 == vf_mult_bp_res && vf_g.pk_export.flag == pub_key_compress))	\
+;
+VF_RECOVER_BYTES_CONTRACT(ecdsa_recover_pub_key_from_priv_key_be)
+VF_RECOVER_BYTES_CONTRACT(ecdsa_recover_pub_key_from_priv_key_le)
+
 #endif /* !VF_REPLAY */
 #endif /* VF_CONTRACTS_ECDSA_H */
